@@ -350,7 +350,7 @@ class Check(common.Check):
         return ('1-4 routines (generator or plain function, with/without inval) whose bodies are scripts of 0-9 '
                 'actions over yield/raise (Exception and bare BaseException: KeyboardInterrupt, SystemExit, GeneratorExit, custom)/raise StopStream/YieldAndReset/AlwaysYield/nested next (catch, propagate, '
                 'embed)/play,pause,resume,stop,reset on any routine incl. itself/Condition wait,signal,unhang,test/'
-                'FlowVar get,set/log; 0-2 conditions, 0-1 flow variables; histories of 1-40 external ops '
+                'FlowVar get,set/log; 30% of generator bodies inside try/finally or except GeneratorExit whose clean-up section yields; 3% EventStreamPlayers with clean-up entries stopped/paused/reset from inside themselves; 0-2 conditions, 0-1 flow variables; histories of 1-40 external ops '
                 '(next, tick, play/pause/resume/stop/reset, signal, unhang, test, FlowVar set); thorough adds all '
                 'histories of length <=4 over 3 fixed two-routine programs. Non-trivial: at least one body ran, at '
                 'least one nested next or in-body operation happened and at least two different kinds of external '
@@ -498,6 +498,11 @@ class Check(common.Check):
             clock = rng.choice(['tempo', 'tempo', 'app', 'sys'])
             ops = [['rop', r, 'play'], ['tick']] + [['tick']] * rng.randint(0, 1) + [['rop', r, 'reset'], ['tick'],
                                                                                       ['tick']] + ops[:rng.randint(0, 8)]
+        closes = any(a[0] == 'raiseb' and a[1] == 'G' for r_ in rts for a in r_['script'])
+        for r_ in rts if not closes else []:
+            # the body's clean-up section yields when the generator is closed (try/finally or except GeneratorExit)
+            if r_['gen'] and rng.random() < 0.3:
+                r_['guard'] = rng.choice(['fin', 'exc'])
         return {'rts': rts, 'nc': nc, 'nf': nf, 'ops': ops, 'clock': clock}
 
     EXH_PROGRAMS = [
@@ -516,8 +521,38 @@ class Check(common.Check):
                  ['rop', 0, 'pause'], ['rop', 0, 'resume'], ['rop', 0, 'stop'], ['rop', 0, 'reset'],
                  ['rop', 1, 'reset']]
 
+    def gen_esp(self, rng):
+        """An EventStreamPlayer (the Routine subclass that plays patterns) stopped / paused / reset from inside
+        itself while clean-up entries are registered: a refused operation changes nothing."""
+        n = rng.randint(2, 6)
+        reg = sorted(rng.randint(1, n) for _ in range(rng.choice([0, 1, 1, 2])))
+        ops = sorted([rng.randint(1, n), rng.choice(['stop', 'stop', 'pause', 'reset'])]
+                     for _ in range(rng.choice([1, 1, 2])))
+        return {'kind': 'esp', 'rts': [], 'nc': 0, 'nf': 0, 'ops': [], 'clock': 'sys',
+                'esp': {'n': n, 'reg': reg, 'ops': ops}}
+
+    def oracle_esp(self, case, out):
+        e, o = case['esp'], out[0]['esp']
+        # from the script alone: every operation from inside is refused and leaves no trace, the clean-up entries
+        # run once, when the stream ends (the next() after the last event), and the player is Done from then on
+        head = []
+        for k in range(1, e['n'] + 1):
+            head += [f'{op} refused' for at, op in e['ops'] if at == k] + [f'event {k}']
+        tail = sorted(f'clean-up {j}' for j in range(len(e['reg'])))
+        log = o['log']
+        if log[:len(head)] != head or sorted(log[len(head):]) != tail:
+            return {'what': f'EventStreamPlayer with {e["n"]} events, clean-up entries registered at events {e["reg"]}, '
+                            f'operations from inside itself {e["ops"]}: a refused operation changes nothing, expected '
+                            f'{head + tail} but observed {log}', 'signature': 'c11:esp:refused-has-effect'}
+        states = ['Suspended'] * e['n'] + ['StopStream/Done'] * 2
+        if o['states'] != states:
+            return {'what': f'EventStreamPlayer with {e["n"]} events and operations from inside itself {e["ops"]}: '
+                            f'states after each next() {o["states"]}, expected {states}',
+                    'signature': 'c11:esp:state'}
+        return None
+
     def gen(self, rng, n):
-        cases = [self.gen_one(rng) for _ in range(n)]
+        cases = [self.gen_one(rng) if rng.random() >= 0.03 else self.gen_esp(rng) for _ in range(n)]
         if self.tier == 'thorough':
             for p in self.EXH_PROGRAMS:
                 alpha = list(self.EXH_ALPHA)
@@ -540,7 +575,8 @@ class Check(common.Check):
     def model(self, cases):
         lines = []
         for c in cases:
-            lines.extend(to_lines(c))
+            if c.get('kind') != 'esp':          # pattern players are judged by the oracle only
+                lines.extend(to_lines(c))
         out, err = common.run_driver('Sc3Verif/C11/Driver.lean', lines)
         if out is None:
             raise RuntimeError('driver failed: ' + err)
@@ -550,9 +586,12 @@ class Check(common.Check):
                 cur = []; res.append(cur)
             else:
                 cur.append(l)
-        return res
+        it = iter(res)
+        return [None if c.get('kind') == 'esp' else next(it) for c in cases]
 
     def compare(self, case, impl_out, model_out):
+        if case.get('kind') == 'esp':
+            return None
         a = [o['line'] for o in impl_out]
         if a == model_out:
             return None
@@ -562,9 +601,13 @@ class Check(common.Check):
         return {'impl_len': len(a), 'model_len': len(model_out)}
 
     def oracle(self, case, out):
+        if case.get('kind') == 'esp':
+            return self.oracle_esp(case, out)
         return Oracle(case).run(out)
 
     def nontrivial(self, case, out):
+        if case.get('kind') == 'esp':
+            return bool(case['esp']['reg'])
         ran = nested = False
         for o in out:
             for rec in o['x']:
@@ -603,6 +646,8 @@ class Check(common.Check):
         return dict(sorted(h.items()))
 
     def shrink(self, case, fails):
+        if case.get('kind') == 'esp':
+            return case
         ops = common.shrink_list(case['ops'], lambda o: fails({**case, 'ops': o}), max_steps=150)
         case = {**case, 'ops': ops}
         # then shrink each script (keeping indices meaningful)
